@@ -1,0 +1,55 @@
+//! Verification hooks (only with `--cfg librqbit_utp_verif`): re-exports of items that are
+//! already `pub` inside private modules, so that an external harness can drive the real
+//! components. Nothing here changes behaviour.
+
+pub use crate::congestion::{CongestionController, cubic::Cubic};
+pub use crate::message::UtpMessage;
+pub use crate::recovery::Recovery;
+pub use crate::rtte::RttEstimator;
+pub use crate::seq_nr::SeqNr;
+pub use crate::stream_rx::{AssemblerAddRemoveResult, OutOfOrderQueue, UserRx};
+pub use crate::stream_tx::UserTx;
+pub use crate::stream_tx_segments::{OnAckResult, Pipe, PopExpiredProbe, Segments};
+pub use crate::traits::UtpEnvironment;
+pub use crate::utils::{prepare_2_ioslices, seq_nr_offset};
+
+/// Protocol constants of the compiled crate, as (name, value) pairs; durations in nanoseconds.
+pub fn constants() -> Vec<(&'static str, u128)> {
+    use crate::constants::*;
+    vec![
+        ("WRAP_TOLERANCE", WRAP_TOLERANCE as u128),
+        ("IPV4_HEADER", IPV4_HEADER as u128),
+        ("IPV6_HEADER", IPV6_HEADER as u128),
+        ("UDP_HEADER", UDP_HEADER as u128),
+        ("UTP_HEADER", UTP_HEADER as u128),
+        ("ACK_DELAY", ACK_DELAY.as_nanos()),
+        ("IMMEDIATE_ACK_EVERY_RMSS", IMMEDIATE_ACK_EVERY_RMSS as u128),
+        ("SYNACK_RESEND_INTERNAL", SYNACK_RESEND_INTERNAL.as_nanos()),
+        ("SACK_DUP_THRESH", SACK_DUP_THRESH as u128),
+        ("SACK_DEPTH", SACK_DEPTH as u128),
+        (
+            "RX_BUF_SIZE_PER_VSOCK_DEFAULT",
+            RX_BUF_SIZE_PER_VSOCK_DEFAULT.get() as u128,
+        ),
+        (
+            "TX_BUF_SIZE_PER_VSOCK_INITIAL_DEFAULT",
+            TX_BUF_SIZE_PER_VSOCK_INITIAL_DEFAULT.get() as u128,
+        ),
+        (
+            "TX_BUF_SIZE_PER_VSOCK_MAX_DEFAULT",
+            TX_BUF_SIZE_PER_VSOCK_MAX_DEFAULT.get() as u128,
+        ),
+        (
+            "DEFAULT_REMOTE_INACTIVITY_TIMEOUT",
+            DEFAULT_REMOTE_INACTIVITY_TIMEOUT.as_nanos(),
+        ),
+        (
+            "DEFAULT_MAX_ACTIVE_STREAMS_PER_SOCKET",
+            DEFAULT_MAX_ACTIVE_STREAMS_PER_SOCKET.get() as u128,
+        ),
+        (
+            "CALC_PIPE_EXPIRY_OF_1S",
+            calc_pipe_expiry(std::time::Duration::from_secs(1)).as_nanos(),
+        ),
+    ]
+}
